@@ -1,0 +1,143 @@
+//go:build verif && (verif_all || verif_c05)
+// +build verif
+// +build verif_all verif_c05
+
+package gocql
+
+// Verification hooks (build tag `verif`): thin exported wrappers over unexported
+// functions so that the external verification harness (property C05: no bytes from the
+// network can crash the application) can call them. Add-only.
+
+import (
+	"bytes"
+	"fmt"
+	"io/ioutil"
+	"log"
+)
+
+var verifC05Logger = log.New(ioutil.Discard, "", 0)
+
+// VerifC05ParseType exposes metadata.go parseType (schema validator/comparator strings).
+func VerifC05ParseType(def string) (isComposite bool, types []TypeInfo, reversed []bool, collections map[string]TypeInfo) {
+	r := parseType(def, verifC05Logger)
+	return r.isComposite, r.types, r.reversed, r.collections
+}
+
+// VerifC05GetCassandraType exposes helpers.go getCassandraType.
+func VerifC05GetCassandraType(name string) TypeInfo { return getCassandraType(name, verifC05Logger) }
+
+// VerifC05GetTypeInfo exposes metadata.go getTypeInfo (apacheToCassandraType + getCassandraType).
+func VerifC05GetTypeInfo(t string) TypeInfo { return getTypeInfo(t, verifC05Logger) }
+
+// VerifC05ApacheToCassandraType exposes helpers.go apacheToCassandraType.
+func VerifC05ApacheToCassandraType(t string) string { return apacheToCassandraType(t) }
+
+// VerifC05SplitCompositeTypes exposes helpers.go splitCompositeTypes.
+func VerifC05SplitCompositeTypes(name string) []string { return splitCompositeTypes(name) }
+
+// VerifC05ReadHeader exposes frame.go readHeader on the bytes available on a connection.
+func VerifC05ReadHeader(wire []byte) (version, flags byte, stream int, op byte, length int, err error) {
+	var p [maxFrameHeaderSize]byte
+	h, err := readHeader(bytes.NewReader(wire), p[:])
+	return byte(h.version), h.flags, h.stream, byte(h.op), h.length, err
+}
+
+// VerifC05ReadFrame runs framer.readFrame on a fresh framer (no compressor) for a header that
+// announces `length` body bytes while only `avail` arrive; it reports the capacity of the read buffer
+// afterwards (what was allocated for the announced body).
+func VerifC05ReadFrame(proto byte, flags byte, length int, avail []byte) (bufCap int, bodyLen int, err error) {
+	f := newFramer(nil, proto)
+	head := &frameHeader{version: protoVersion(proto | 0x80), flags: flags, stream: 1, op: opResult, length: length}
+	err = f.readFrame(bytes.NewReader(avail), head)
+	return cap(f.readBuffer), len(f.buf), err
+}
+
+// verifC05Framer builds a framer holding `body` exactly as Conn.recv does (newFramer + readFrame).
+func verifC05Framer(proto, headVersion, flags, op byte, body []byte) (*framer, error) {
+	f := newFramer(nil, proto)
+	head := &frameHeader{version: protoVersion(headVersion), flags: flags, stream: 1, op: frameOp(op), length: len(body)}
+	if err := f.readFrame(bytes.NewReader(body), head); err != nil {
+		return nil, err
+	}
+	return f, nil
+}
+
+// VerifC05ParseFrame runs the real framer.parseFrame (its deferred recover included) on a frame
+// body; kind is the Go type of the parsed frame.
+func VerifC05ParseFrame(proto, headVersion, flags, op byte, body []byte) (kind string, err error) {
+	f, err := verifC05Framer(proto, headVersion, flags, op, body)
+	if err != nil {
+		return "", err
+	}
+	fr, err := f.parseFrame()
+	if err != nil {
+		return "", err
+	}
+	return fmt.Sprintf("%T", fr), nil
+}
+
+// VerifC05Recorder is a destination that accepts every value (Unmarshaler).
+type VerifC05Recorder struct{ N int }
+
+func (r *VerifC05Recorder) UnmarshalCQL(info TypeInfo, data []byte) error { r.N++; return nil }
+
+// VerifC05RowsScan parses a RESULT frame and, when it is a ROWS result, iterates it with Iter.Scan
+// exactly as conn.executeQuery builds the iterator, into destinations that accept every value.
+func VerifC05RowsScan(proto, flags byte, body []byte, rowCap int) (kind string, rows int, capped bool, err error) {
+	f, err := verifC05Framer(proto, proto|0x80, flags, byte(opResult), body)
+	if err != nil {
+		return "", 0, false, err
+	}
+	fr, err := f.parseFrame()
+	if err != nil {
+		return "", 0, false, err
+	}
+	x, ok := fr.(*resultRowsFrame)
+	if !ok {
+		return fmt.Sprintf("%T", fr), 0, false, nil
+	}
+	iter := &Iter{meta: x.meta, framer: f, numRows: x.numRows}
+	// a frame with the no-metadata flag can announce 2^31-1 columns without describing any: do not
+	// build such a destination list (callers size it by len(iter.Columns())); Scan then reports the
+	// count mismatch as an error
+	n := iter.meta.actualColCount
+	if n > 65536 {
+		n = 0
+	}
+	dest := make([]interface{}, n)
+	for i := range dest {
+		dest[i] = &VerifC05Recorder{}
+	}
+	for iter.pos < iter.numRows {
+		if rows >= rowCap {
+			capped = true
+			break
+		}
+		if !iter.Scan(dest...) {
+			break
+		}
+		rows++
+	}
+	return "rows", rows, capped, iter.Close()
+}
+
+// VerifC05RowData parses a RESULT frame and, when it is a ROWS result, builds the destination values
+// of MapScan / SliceMap with Iter.RowData (TypeInfo.NewWithError -> goType for every column / tuple
+// element).
+func VerifC05RowData(proto, flags byte, body []byte) (kind string, n int, err error) {
+	f, err := verifC05Framer(proto, proto|0x80, flags, byte(opResult), body)
+	if err != nil {
+		return "", 0, err
+	}
+	fr, err := f.parseFrame()
+	if err != nil {
+		return "", 0, err
+	}
+	x, ok := fr.(*resultRowsFrame)
+	if !ok {
+		return fmt.Sprintf("%T", fr), 0, nil
+	}
+	iter := &Iter{meta: x.meta, framer: f, numRows: x.numRows}
+	rd, err := iter.RowData()
+	return "rows", len(rd.Values), err
+}
